@@ -331,12 +331,33 @@ func (d *Datastore) lowlevelTransactionSet(ctx context.Context, transaction *typ
 		delSl := deletesOwner.StringSlice()
 		log.Debugf("Deletes Owner: %s \n%s", intent.GetName(), strings.Join(delSl, "\n"))
 
-		// modify intended store per intent
+		// The entries to be deleted are stored under the priority of the old intent version.
+		// If the priority changed, all the old entries need to go, the remaining once are
+		// (re-)written with the new priority.
+		oldPriority := intent.GetPriority()
+		if oldIntent := transaction.GetOldIntent(intent.GetName()); oldIntent != nil && len(oldIntent.GetUpdates()) > 0 {
+			oldPriority = oldIntent.GetPriority()
+			if oldPriority != intent.GetPriority() {
+				deletesOwner = oldIntent.GetPathSet().GetPaths()
+			}
+		}
+
+		// modify intended store per intent, remove the outdated entries of the old version first
+		if len(deletesOwner) > 0 {
+			err = d.cacheClient.Modify(ctx, d.Name(), &cache.Opts{
+				Store:    cachepb.Store_INTENDED,
+				Owner:    intent.GetName(),
+				Priority: oldPriority,
+			}, deletesOwner.ToStringSlice(), nil)
+			if err != nil {
+				return nil, fmt.Errorf("failed updating the intended store for %s: %w", d.Name(), err)
+			}
+		}
 		err = d.cacheClient.Modify(ctx, d.Name(), &cache.Opts{
 			Store:    cachepb.Store_INTENDED,
 			Owner:    intent.GetName(),
 			Priority: intent.GetPriority(),
-		}, deletesOwner.ToStringSlice(), updatesOwner)
+		}, nil, updatesOwner)
 
 		if err != nil {
 			return nil, fmt.Errorf("failed updating the intended store for %s: %w", d.Name(), err)
